@@ -5,7 +5,7 @@ for x in "$@"; do
   out=$(timeout 1800 tools/try_seed.sh /verif/seeded/$s/patch.diff $p 2>&1)
   v=$(echo "$out" | grep -c "^VIOLATION")
   h=$(echo "$out" | grep -c "HARNESS-ERROR")
-  a=$(echo "$out" | grep -c "does not apply")
+  a=$(echo "$out" | grep -c "does not apply\|repo dirty")
   first=$(echo "$out" | grep "^VIOLATION" | head -1 | sed 's/.*(\(.*\)/\1/' | cut -c1-160)
   echo "$s on $p: violations=$v harness_errors=$h patch_fail=$a :: $first"
   git -C /verif clean -fdq replays
